@@ -210,7 +210,7 @@ def run(ctx):
 
     # frame of the modules under contract (no state kept between calls, arguments left alone): same analysis as C19
     from props import C19 as _C19
-    ctx.guard(_C19.frame_obligations, ctx, py, "C05", {'error_model', 'sim', 'transform'})
+    ctx.guard(_C19.frame_obligations, ctx, py, "C05", {'error_model', 'transform', 'util', 'sim'})
 
 
 def _is_roundtrip_zero(c0):
